@@ -63,7 +63,7 @@ func init() {
 	})
 	cfg := gen.Cfg{ExprDepth: 2, BodyLen: 3, Nest: 2, Calls: true, If: true, For: true, Set: true, SetCap: true, FilterSec: true, Macros: true, Blocks: true}
 	p.Run = func(c *Ctx) {
-		sub.Rapid(c, c.Share(c.Pick(300, 20000)), func(t *rapid.T) *c18Case {
+		sub.Rapid(c, c.Share(c.Pick(400, 20000)), func(t *rapid.T) *c18Case {
 			cs := &c18Case{Env: rapid.SampledFrom([]string{"twig", "twig", "core"}).Draw(t, "env"), Templates: map[string]string{},
 				Procs: rapid.SampledFrom([]int{1, 4, 16}).Draw(t, "procs"), Yield: rapid.IntRange(0, 5).Draw(t, "yield")}
 			exts := []string{".html", ".js", ".css", ".txt", "", ".html.twig", ".xml"}
@@ -90,6 +90,15 @@ func init() {
 					entries = append(entries, n)
 				}
 			}
+			// fixed feature templates: every evaluator arm, capturing construct and
+			// failure path is executed by several goroutines at once
+			cs.Templates["allops.html"] = c18AllOps
+			cs.Templates["captures.html"] = c18Captures
+			cs.Templates["failmacro.html"] = "a{% macro m(q) %}x{{ q }}{{ nosuchfunction() }}{% endmacro %}{% set c %}pre{{ _self.m(p) }}{% endset %}{{ c }}"
+			cs.Templates["failfilter.js"] = "b{% filter nosuchfilter %}{{ p }}{% endfilter %}"
+			cs.Templates["failinclude.txt"] = "c{% include 'missing-template' %}"
+			cs.Templates["failparse.html"] = "d{% if p %}{{ p +"
+			entries = append(entries, "allops.html", "allops.html", "captures.html", "captures.html", "failmacro.html", "failfilter.js", "failinclude.txt", "failparse.html")
 			cs.Templates["payload.js"] = "var x = '{{ p }}';"
 			cs.Templates["payload.html"] = "<b>{{ p }}</b>{% block a %}{{ p }}{% endblock %}"
 			cs.Templates["payload.txt"] = "{{ p }}"
@@ -133,3 +142,18 @@ func raceSite(report string) string {
 	}
 	return strings.Join(sites, "+")
 }
+
+// c18AllOps exercises every operator class, literal form, callback kind and
+// loop / conditional form (values depend on the per-call variable x).
+const c18AllOps = `{{ x + 1 }}{{ x - 1 }}{{ x * 2 }}{{ x / 4 }}{{ x // 3 }}{{ x % 3 }}{{ 2 ** 3 }}{{ p ~ x }}{{ x == 1 }}{{ x != 1 }}{{ x < 3 }}{{ x >= 3 }}` +
+	`{{ x in [1, 2, 3] }}{{ x not in [4] }}{{ p starts with '<' }}{{ p ends with '7' }}{{ p matches '^<' }}{{ p matches '[0-9]+$' }}{{ 'ab' matches 'a.' }}{{ 'q' matches x ~ '' }}` +
+	`{{ x b-and 3 }}{{ x b-or 4 }}{{ x b-xor 1 }}{{ not sel }}{{ sel and x }}{{ sel or x }}{{ sel ? 'y' : 'n' }}{{ -x }}{{ +x }}` +
+	`{% for i in 1..3 %}{{ i }}{{ loop.index }}{{ loop.last }}{% for j in [x, 'k'] %}{{ loop.parent.index }}{{ j }}{% endfor %}{% else %}none{% endfor %}` +
+	`{% for k, v in {a: x} if v %}{{ k }}{% endfor %}{{ "i#{x}j#{p}" }}{{ [1, x][1] }}{{ {k: x}.k }}{{ {k: x}['k'] }}` +
+	`{{ cat(x, p, [x], {a: 1}) }}{{ x|wrap(1, 'z')|up }}{{ x is odd }}{{ x is not divisible by(3) }}{{ id(p)|fid }}{{ add(x, 2) }}{{ probe('x') }}{{ who() }}` +
+	`{% if x > 100 %}a{% elseif x > 1 %}b{% else %}c{% endif %}{% set y = x * 2 %}{{ y }}{% do id(y) %}{# comment #}{% verbatim %}{{ raw }}{% endverbatim %}`
+
+// c18Captures nests every capturing construct.
+const c18Captures = `{% macro w(a, b) %}[{{ a }}|{{ b }}{% set in %}in{{ a }}{% endset %}{{ in }}]{% endmacro %}{% macro v(a) %}({{ _self.w(a, 'v') }}){% endmacro %}` +
+	`{% block a %}A{{ x }}{% block b %}B{{ p }}{% endblock %}{% endblock %}head {% set c1 %}c1{{ _self.v(x) }}{% filter up|wrap %}f{{ p }}{% set c2 %}c2{{ block('b') }}{% endset %}{{ c2 }}{% endfilter %}{% endset %}` +
+	`{{ c1 }} MID {{ block('a') }}{% for i in 1..2 %}{% set c3 %}{{ i }}{{ _self.w(i, c1) }}{% endset %}{{ c3 }}{% endfor %} tail`
